@@ -142,6 +142,9 @@ def _worker(args):
     modname, tier, seed, shard, nshards, limit, options = args
     scrub_env()
     add_deps()
+    if not os.environ.get("VERIF_WORKER_OUTPUT"):
+        # the library prints diagnostics (print(e, file=sys.stderr), "Generating: ..."); workers report through return values only
+        sys.stdout = sys.stderr = open(os.devnull, "w")
     import importlib
 
     mod = importlib.import_module(modname)
@@ -269,6 +272,8 @@ def _replay_child(args):
     modname, case, options = args
     scrub_env()
     add_deps()
+    if not os.environ.get("VERIF_WORKER_OUTPUT"):
+        sys.stdout = sys.stderr = open(os.devnull, "w")
     import importlib
 
     mod = importlib.import_module(modname)
